@@ -262,6 +262,29 @@ func runS7(c *core.Ctx) {
 		if !ok || p.ObjectOf(id) != data {
 			return true
 		}
+		// an assignment *to* data (the corrected copy replaces the input, with pos reset) is not a use
+		if len(stack) >= 2 {
+			if as, ok := stack[len(stack)-2].(*ast.AssignStmt); ok {
+				isLHS := false
+				for _, l := range as.Lhs {
+					if l == ast.Expr(id) {
+						isLHS = true
+					}
+				}
+				if isLHS {
+					// the new value must come with pos = 0 in the same statement
+					resets := false
+					for i, l := range as.Lhs {
+						if p.ExprObj(l) == pos && i < len(as.Rhs) && exprStr(as.Rhs[i]) == "0" {
+							resets = true
+						}
+					}
+					n++
+					c.Check(resets, "optdec.newParser/data-use#"+itoa(n), id.Pos(), "the input is replaced together with pos = 0", "the input variable is replaced without resetting pos in the same statement: data[pos:] then skips part of the replacement")
+					return true
+				}
+			}
+		}
 		// classify the use by its ancestors
 		sliced := false
 		validated := false
